@@ -104,6 +104,16 @@ def gen_tree(rng):
             form = rng.choice(['pytest_plugins = ["%s"]', "from %s import *"])
             if (d + "/" if d else "") + "helpers.py" in files:
                 continue
+        elif rng.random() < 0.5:
+            # a project-local module that carries a standard-library name, pulled in RELATIVELY: it is the local module
+            # (placed in a directory the scan enters whenever there is one)
+            mod = rng.choice(["http", "logging", "types", "random"])
+            form = "from .%s import *"
+            entered = [x for x in dirs if not any(skip_dir(c) for c in x.split("/") if c)]
+            if entered:
+                d = rng.choice(entered)
+            if (d + "/" if d else "") + mod + ".py" in files:
+                continue
         if any(x[0] == (d + "/" if d else "") + imp for x in importers):
             continue            # one importer per path (a second one would overwrite the first one's text)
         files[(d + "/" if d else "") + imp] = (form % mod) + "\n" + FX.format("i%d" % len(importers))
@@ -179,6 +189,8 @@ def run(tier, seed):
             cases.q("unused")
             names.append(name)
         groups.append((names, files, unreadable, patterns, locs, importers))
+        r.stats["stdlib_named_relative_importers_live"] = r.stats.get("stdlib_named_relative_importers_live", 0) + sum(
+            1 for (imp, m) in importers if imp in live and m.rsplit("/", 1)[-1] in ("http.py", "logging.py", "types.py", "random.py"))
         if any(skip_dir(c) for p in files for c in p.split("/")[:-1]) and (unreadable or patterns):
             r.nontrivial.add(tuple(sorted(files)))
         if i < 2:
